@@ -296,3 +296,21 @@ def _range_incl_next(ctx, a, c):
             r.lo = z3.simplify(r.lo + 1)
         return some(v)
     return none()
+
+
+@model("<FuturesUnordered as Extend>::extend", "FuturesUnordered::extend", doc="futures-util: push every item of the iterator, in order")
+def _fu_extend(ctx, a, c):
+    from models import IterV
+    it = a[1]
+    if not isinstance(it, IterV):
+        raise Inconclusive("FuturesUnordered::extend from " + repr(it))
+    while it.pos < len(it.items):
+        x = it.items[it.pos]
+        it.pos += 1
+        _fu_push(ctx, [a[0], x], c)
+    return UNIT
+
+
+@model("Ord::min", "<usize as Ord>::min", "cmp::min", doc="core: minimum of two unsigned integers")
+def _umin(ctx, a, c):
+    return z3.If(z3.ULE(a[0], a[1]), a[0], a[1])
